@@ -189,6 +189,13 @@ func toEnum(src val.EnumList, v interface{}) (val.Enum, error) {
 	if v == nil {
 		return val.Enum{}, fmt.Errorf("could not coerce nil into enum %v", src.String())
 	}
+	// a text is the name of an enum before it is anything else: names may look like numbers
+	// ("10", "100") and then are not the values of other names
+	if label, isText := v.(string); isText {
+		if e, found := src.ByLabel(label); found {
+			return e, nil
+		}
+	}
 	if id, isNum := val.Conv(val.FmtInt32, v); isNum == nil {
 		if e, found := src.ById(id.Value().(int)); found {
 			return e, nil
